@@ -22,8 +22,8 @@ prop("C03", "other",
      ["CW-SITES", "OWN-BALANCE", "OWN-PRIMITIVES", "CW-WEAK-PROTOCOL", "CW-SPLIT-INC-PROTECTED", "CW-DEFERRED-ONLY"],
      [COMPOSITION], assumptions=TRUST)
 prop("C04", "other",
-     ["CW-SITES", "CW-DESTRUCT-ONCE", "CW-DESTRUCT-ORDER", "CW-ZERO-DEFERS", "CW-DEC-NONZERO", "OWN-BALANCE",
-      "CW-WEAK-PROTOCOL", "CW-ALLOC-RANGE"],
+     ["CW-SITES", "CW-DESTRUCT-ONCE", "CW-DESTRUCT-ORDER", "CW-ZERO-DEFERS", "CW-ATTEMPT-RECHECK", "CW-DEC-NONZERO",
+      "OWN-BALANCE", "CW-WEAK-PROTOCOL", "CW-ALLOC-RANGE", "CW-CASCADE-DECISION"],
      ["'after a bounded number of collection rounds' (liveness of EBR)", "cycles (excluded by the statement)",
       COMPOSITION], assumptions=TRUST)
 prop("C09", "other",
